@@ -105,6 +105,7 @@ type caseSpec struct {
 	Stored    *tableSpec  `json:"stored,omitempty"`
 	Bearer    *bearerSpec `json:"bearer,omitempty"`
 	RespForm  int         `json:"resp_form"` // GET/HEAD: how the stored header reaches the 2nd eACL stage (message / binary)
+	Cat       int         `json:"cat"`       // -1, or index of the really stored catalogue object that is requested (TestC28ServerStored)
 }
 
 func (c caseSpec) String() string {
@@ -170,7 +171,7 @@ func opIdx(op string) uint {
 	panic("bad op " + op)
 }
 
-func genFilter(t *rapid.T, recOp string) filterSpec {
+func genFilter(t *rapid.T, recOp string, reqOID string) filterSpec {
 	type kind int
 	const (
 		fReq kind = iota
@@ -200,7 +201,7 @@ func genFilter(t *rapid.T, recOp string) filterSpec {
 			Val: cidStr(rapid.IntRange(1, 2).Draw(t, "fcid"))}
 	case fOID:
 		return filterSpec{From: "obj", Key: hOID, M: rapid.SampledFrom([]string{"EQ", "NE", "NP"}).Draw(t, "fm"),
-			Val: oidStr(rapid.IntRange(1, 2).Draw(t, "foid"))}
+			Val: rapid.SampledFrom([]string{reqOID, oidStr(2)}).Draw(t, "foid")}
 	case fOwner:
 		return filterSpec{From: "obj", Key: hOwner, M: rapid.SampledFrom([]string{"EQ", "NE"}).Draw(t, "fm"),
 			Val: userStr(rapid.IntRange(0, nKeys-1).Draw(t, "fowner"))}
@@ -246,7 +247,7 @@ func genTarget(t *rapid.T, requester int) targetSpec {
 	}
 }
 
-func genTable(t *rapid.T, label string, focusOp string, requester int) tableSpec {
+func genTable(t *rapid.T, label string, focusOp string, requester int, reqOID string) tableSpec {
 	var tb tableSpec
 	n := rapid.IntRange(0, 5).Draw(t, label+"-nrec")
 	for i := 0; i < n; i++ {
@@ -263,7 +264,7 @@ func genTable(t *rapid.T, label string, focusOp string, requester int) tableSpec
 		}
 		nf := rapid.SampledFrom([]int{0, 0, 1, 1, 2}).Draw(t, "nfilters")
 		for j := 0; j < nf; j++ {
-			r.Filters = append(r.Filters, genFilter(t, r.Op))
+			r.Filters = append(r.Filters, genFilter(t, r.Op, reqOID))
 		}
 		tb.Records = append(tb.Records, r)
 	}
@@ -304,11 +305,19 @@ func genMaskBase(t *rapid.T, effOp string) uint32 {
 	}
 }
 
-func genCase(t *rapid.T) caseSpec {
+// genCase generates a case. With stored set, the case is a local (TTL 1) GET or
+// HEAD of one of the catalogue objects kept in a real storage engine.
+func genCase(t *rapid.T, stored bool) caseSpec {
 	var c caseSpec
+	c.Cat = -1
 
 	c.Req = rapid.SampledFrom(reqKinds).Draw(t, "req")
 	c.TTL = uint32(rapid.IntRange(1, 2).Draw(t, "ttl"))
+	if stored {
+		c.Req = rapid.SampledFrom([]string{kGet, kHead}).Draw(t, "stored-req")
+		c.TTL = 1
+		c.Cat = rapid.IntRange(0, len(catalogue)-1).Draw(t, "catalogue-object")
+	}
 	c.Owner = rapid.IntRange(0, nKeys-1).Draw(t, "owner")
 	roleClass := rapid.SampledFrom([]string{"owner", "owner", "owner", "others", "others", "others", "others", "ir", "container", "container"}).Draw(t, "role-class")
 	if roleClass == "owner" {
@@ -346,19 +355,22 @@ func genCase(t *rapid.T) caseSpec {
 	c.Obj.Attrs = genKV(t, "attr", attrKeys, valuePool[:5]) // object attributes must have a value
 	c.Obj.HasID = rapid.IntRange(0, 3).Draw(t, "obj-has-id") != 0
 	c.RespForm = rapid.IntRange(0, 1).Draw(t, "resp-form")
+	if stored {
+		c.Obj = catalogue[c.Cat]
+	}
 
 	effOp := refEffectiveOp(c, refRole(c))
 	c.Mask = genMask(t, c.Req, effOp)
 
 	if rapid.IntRange(0, 4).Draw(t, "has-stored") != 0 {
-		tb := genTable(t, "stored", effOp, c.Requester)
+		tb := genTable(t, "stored", effOp, c.Requester, reqOIDStr(c))
 		tb.Cnr = 1
 		c.Stored = &tb
 	}
 
 	if rapid.IntRange(0, 9).Draw(t, "has-bearer") < 4 {
 		b := &bearerSpec{Issuer: c.Owner, ForUser: -1, Iat: 1, Nbf: 1, Exp: 100}
-		b.Table = genTable(t, "bearer", effOp, c.Requester)
+		b.Table = genTable(t, "bearer", effOp, c.Requester, reqOIDStr(c))
 		b.Table.Cnr = rapid.SampledFrom([]int{0, 1, 1}).Draw(t, "bearer-cnr")
 		if rapid.Bool().Draw(t, "bearer-for-requester") {
 			b.ForUser = c.Requester
